@@ -95,8 +95,10 @@ def run_m6a(rng, tier, case):
             kw.update(shutdown_ramp_lower_bounds=list(sd_), shutdown_ramp_upper_bounds=list(sd_)); m = len(sd_)
         if ramp_in is not None:
             kw.update(ramp=ramp_in)
-        if Rs > 0:
-            Rs, Fs = 0, max(Fs, 1)      # keep the initial state clear of a start ramp in progress
+        if Rs > 0 and rng.random() < 0.5:
+            Rs, Fs = 0, max(Fs, 1)      # (otherwise: declared running - possibly with the start ramp still in progress)
+        elif Rs > 0 and ramp_in is not None:
+            kw.update(last_dispatch=(s_[Rs - 1] if Rs <= k else 4. / stepf))      # the output of the step before the horizon, consistent with the declared state
     MR_in = (MRs - 0.5 if (half and MRs >= 2) else MRs) * stepf
     MD_in = (MDs - 0.5 if (half and MDs >= 2) else MDs) * stepf
     params = dict(freq=freq, unit=unit, min_runtime_steps=MRs, min_downtime_steps=MDs, running_steps=Rs, off_steps=Fs, start_costs=sc, profiles=prof, ramp=ramp_in, half_steps=half, chp=chp, T=T)
